@@ -142,7 +142,16 @@ def pair_case(op, T, prec, isa, wxyz=False):
         pc = P.PCtx()
         for lane, offs in sorted(rs.lanes.items(), key=lambda x: str(x[0])):
             oid = '%s[%s]' % (cname, lane)
-            t_s = tm.substitute(I.out_lane(its, 'o', offs, rs.elem), m)
+            t_s0 = I.out_lane(its, 'o', offs, rs.elem)
+            # padding independence: a result lane may not be computed from the hidden lane of an aligned vec3 operand (its content is arbitrary:
+            # 0 * pad is NaN for a non-finite pad even where the algebra cancels it)
+            named = {('abc'[i], off) for i, a in enumerate(ts) for off in a.lanes.values()}
+            pads = sorted({(an, off // 8) for an, off, w_ in tm.inputs_of(t_s0) if an in 'abc'[:len(ts)] and (an, off // 8) not in named})
+            if pads and rs.isfloat:
+                res.append(R.ob(oid, 'padding', R.REFUTED, 'the intrinsic build computes this component from the padding lane of operand %s (byte offset %d), whose content is unspecified: a non-finite padding value turns the result into NaN' % pads[0],
+                                where=R.where_of(its, t_s0), kernel=ks.source()))
+                continue
+            t_s = tm.substitute(t_s0, m)
             t_p = I.out_lane(itp, 'o', rp.lanes[lane], rp.elem)
             # D3: approximations only in lowp
             approx = [x for x in tm.walk(t_s) if x.op == 'fn' and x.args[0] in ('x86.rcp', 'x86.rsqrt')]
